@@ -228,9 +228,9 @@ fn c05_strategy(stream: u64) -> BoxedStrategy<FaultCase> {
 }
 
 pub fn run_c05(cx: &Cx) -> PropResult {
-    let n_raw = cx.n(8_000, 400_000);
-    let n_tam = cx.n(12_000, 600_000);
-    let n_ops = cx.n(6_000, 200_000);
+    let n_raw = cx.n(16_000, 600_000);
+    let n_tam = cx.n(30_000, 1_000_000);
+    let n_ops = cx.n(12_000, 300_000);
     let acc = parallel(cx, &|shard, acc| {
         if run_exhaustive(cx, shard, acc) {
             return;
@@ -382,8 +382,8 @@ fn c06_strategy(stream: u64) -> BoxedStrategy<FaultCase> {
 }
 
 pub fn run_c06(cx: &Cx) -> PropResult {
-    let n_raw = cx.n(6_000, 300_000);
-    let n_tam = cx.n(20_000, 1_000_000);
+    let n_raw = cx.n(12_000, 400_000);
+    let n_tam = cx.n(50_000, 1_500_000);
     let acc = parallel(cx, &|shard, acc| {
         for (stream, n) in [(1u64, n_raw), (2, n_tam)] {
             let strat = c06_strategy(stream);
